@@ -11,7 +11,9 @@
    Normalize = Fold o Collapse(space|tab|LF runs -> one space) o Trim(space, tab, LF).
 
    A document is a sequence of items in source order:
-     [t |-> "def", label, dest, container]     a definition  [label]: /d<dest> "t<dest>"   (container: 0 none, 1 quote, 2 list item)
+     [t |-> "def", label, dest, container]     a definition  [label]: /d<dest> "t<dest>"   (container: 0 none, 1 quote, 2 list item,
+                                                  3 quote nested in a quote that the next quoted item continues, 4 list item nested in a list item:
+                                                  with a following item of container 1 / 2 the two definitions stand at different depths of ONE root block)
      [t |-> "use", label, style]               a reference   1 full [x][label], 2 collapsed [label][], 3 shortcut [label]
    Map(doc) is built by first-wins Extract over the definitions in source order; Resolve(doc, use) is the
    destination the use must get, or 0 if it must stay plain text.
@@ -69,7 +71,7 @@ NUses(d) == Len(d) - NDefs(d)
 GenInit == doc = <<>> /\ tid = 0 /\ verdict = "ok"
 GenNext == /\ Len(doc) < MaxItems
            /\ \/ /\ NDefs(doc) < MaxDefs
-                 /\ \E l \in Labels, c \in 0..2 :
+                 /\ \E l \in Labels, c \in 0..4 :
                       doc' = Append(doc, [t |-> "def", label |-> l, dest |-> NDefs(doc) + 1, container |-> c, style |-> 0])
               \/ /\ NUses(doc) < MaxUses
                  /\ \E l \in Labels, st \in 1..3 :
